@@ -481,8 +481,27 @@ def run(ctx):
     # R: every behaviour TLC enumerated, on the real code
     replay_space(ctx, judge, "wire-seq", behs["wire-seq"])
     replay_space(ctx, judge, "local-seq", behs["local-seq"])
-    replay_space(ctx, judge, "wire-race", behs["wire-race"], race=True, opts={"maxp": 3})
-    replay_space(ctx, judge, "local-race", behs["local-race"], race=True, opts={"maxp": 3})
+    replay_space(ctx, judge, "wire-race", behs["wire-race"], race=True, opts={"maxp": ctx.pick(3, 4)})
+    replay_space(ctx, judge, "local-race", behs["local-race"], race=True, opts={"maxp": ctx.pick(3, 4)})
+
+    # S: three real pushes (two receive-pack handlers and a local push) on the same two refs, every schedule with a
+    # bounded number of preemptions at ref-operation grain; judged by the monitor only
+    A2 = W([(1, 1, 3), (2, 1, 3)], caps=("report-status", "atomic"), pack=(3,))
+    N2 = W([(2, 1, 3), (1, 1, 3)], caps=("report-status",), pack=(3,))
+    U = W([(1, 1, 2)])
+    D = W([(1, 1, 0)])
+    X = W([(2, 1, 4)])
+    LA = W([(2, 0, 0), (1, 0, 3)], kind="local", caps=("atomic",), pack=(3,))
+    LN = W([(1, 0, 2), (2, 0, 2)], kind="local", caps=())
+    items = []
+    for n, tri in enumerate([(A2, U, LA), (A2, D, LN), (N2, U, LA), (U, D, X), (LA, LN, U), (A2, N2, D)]):
+        for layout in ("loose", "packed"):
+            items.append((f"sched3-{n}-{layout}", {"refs0": [1, 1], "store0": [1, 2], "push": list(tri), "layout": layout},
+                          {"maxp": ctx.pick(2, 3), "limit": ctx.pick(60, 2500)}))
+    for k, tr in pool_run(ctx, "race", items, chunk=1):
+        tr["label"] = "sched3"
+        judge.add("sched3", tr)
+        ctx.nontrivial(("sched3", k, L.project_real(tr)))
 
     # T: random larger pushes, other layouts, stateless-rpc, up to three pushers under random schedules
     n = ctx.pick(600, 12000)
